@@ -123,11 +123,17 @@ def clause_index(ex, gen_text, line, fn, label):
     return None, 0
 
 
-def run(unit_name, repo, outdir, extra_args=(), probe=False, timeout=900):
+def run(unit_name, repo, outdir, extra_args=(), probe=False, timeout=900, tolerant=False):
     t0 = time.time()
     m, d = load_unit(unit_name)
     spec = Spec.load([os.path.join(d, s) for s in m.UNIT["specs"]])
-    ex = build_unit(repo, m.UNIT, spec, prelude_texts(m, d))
+    extract.TOLERANT_HINTS = bool(tolerant)
+    extract.DROPPED_HINTS[:] = []
+    try:
+        ex = build_unit(repo, m.UNIT, spec, prelude_texts(m, d))
+    finally:
+        extract.TOLERANT_HINTS = False
+    dropped_hints = list(extract.DROPPED_HINTS)
     os.makedirs(outdir, exist_ok=True)
     gen_path = os.path.join(outdir, unit_name + ".rs")
     open(gen_path, "w").write(ex.text)
@@ -155,7 +161,7 @@ def run(unit_name, repo, outdir, extra_args=(), probe=False, timeout=900):
                 diags.append(dj)
     res = {"unit": unit_name, "gen_path": gen_path, "ex": ex, "spec": spec, "obligations": obs, "wall_s": wall,
            "cmd": " ".join(cmd), "raw_stdout": p.stdout, "raw_stderr": p.stderr, "verus_exit": p.returncode,
-           "assumptions": scan_assumptions(ex.text)}
+           "assumptions": scan_assumptions(ex.text), "tolerant": bool(tolerant), "dropped_hints": dropped_hints}
     errors = [dj for dj in diags if dj.get("level") == "error" and not dj["message"].startswith("aborting due to")]
     if js is None or "verification-results" not in js:
         res.update(status="undecided", reason="verus produced no verification result (compile error or crash): " +
